@@ -1159,7 +1159,7 @@ def _dropped_nonempty(ctx, b, start_bb, first_holder, no_user_code=False):
 def rule_m_keep(ctx):
     R = RuleResult("M-keep", "the table taken out of the main slot when a bigger one is installed is stored as the old table of the pending resize, or "
                    "dropped only after it was found empty, on every non-panicking path (also early error returns): its elements are never dropped "
-                   "wholesale; the main slot itself is never overwritten in place")
+                   "wholesale; the main slot itself is never overwritten in place; the split table of an existing map is never replaced as a whole")
     for b, loc, c in replacer_sites(ctx):
         if c is None:
             R.inst(fn=b.path, site=b.where(loc), verdict="VIOLATION")
@@ -1184,6 +1184,42 @@ def rule_m_keep(ctx):
                    "old table (path %s): every element it holds would be dropped by an operation that is not meant to remove anything"
                    % (c.where(), w[1], w[0]))
     R.floor(1, "sites that replace the main table")
+    # the split table of an existing map is never replaced as a whole (`mem::replace(&mut self.table, RawTable::new())`, `self.table = fresh`):
+    # apart from losing whatever the reasoning above is about, it silently gives up the capacity the caller was promised (with_capacity /
+    # reserve: the next n insertions do not reallocate; shrink_to never drops below min(m, capacity)).  Capacity changes hands only in the
+    # growth path and in hashbrown's own shrink.
+    T_ = ctx.facts.types
+    S_ = ctx.roles.S
+    nrep = 0
+    for b in ctx.facts.bodies.values():
+        own = ctx.facts.closure_parent(b)
+        if own.name in ("clone_from",):
+            continue
+        for loc, st in b.all_assigns():
+            pl = st["place"]
+            if not pl["proj"] or T_[pl["ty"]].get("adt") != S_ or b.is_cleanup(loc.bb):
+                continue
+            p_ = b.expand(pl)
+            if 1 <= p_.root <= b.arg_count or b.kind == "Closure":
+                nrep += 1
+                R.inst(fn=b.path, site=b.where(loc), verdict="VIOLATION")
+                R.viol("%s:replaces-split-table" % b.path, b.where(loc), "%s overwrites the whole split table of an existing map: its capacity (and anything still in it) is "
+                       "given up outside the growth / shrink paths" % b.path)
+        for c in ctx.calls(b):
+            if c.name not in ("core::mem::replace", "core::mem::take", "core::mem::swap") or b.is_cleanup(c.loc.bb):
+                continue
+            for a_ in c.args[:2 if c.name == "core::mem::swap" else 1]:
+                if a_["k"] not in ("copy", "move"):
+                    continue
+                t_ = T_[a_["place"]["ty"]]
+                if t_.get("k") == "ref" and T_[t_["inner"]].get("adt") == S_:
+                    p_ = b.op_path(a_)
+                    if p_ is not None and (1 <= p_.strip_refs().root <= b.arg_count or b.kind == "Closure") and p_.fields():
+                        nrep += 1
+                        R.inst(fn=b.path, site=c.where(), verdict="VIOLATION")
+                        R.viol("%s:replaces-split-table" % b.path, c.where(), "%s takes the whole split table out of an existing map (%s): its capacity (and anything "
+                               "still in it) is given up outside the growth / shrink paths" % (b.path, c.name))
+    R.inst(fn="*", check="no function replaces the split table of an existing map as a whole", sites=nrep, verdict="ok" if not nrep else "found")
     return R
 
 
